@@ -1,3 +1,4 @@
+#![allow(unused_variables)]
 //! Parallel iterators of the rayon stand-in.
 //!
 //! A parallel iterator is a set of *base indices* `0..base_len()`; `pull(i, sink)`
@@ -24,6 +25,12 @@ const RANDOM_START_CAP: usize = 1 << 16;
 // ---------------------------------------------------------------------------------
 // engine
 
+/// Identity of the unit that processes a run of items one after another (a rayon *job*):
+/// `map_with`/`map_init` state is created once per job and reused for its items. In the
+/// simulation a job is one worker task of one region (in sequential mode: the region).
+#[derive(Clone, Copy, Debug, PartialEq, Eq, Hash)]
+pub struct Ctx(pub u64);
+
 struct Slot<T> {
     arrival: u64,
     items: Vec<T>,
@@ -41,6 +48,8 @@ struct Shared<T> {
     stops: u64,
     running: u64,
     last_started: Option<usize>,
+    leavers: u32,
+    workers: usize,
     panic: Option<Box<dyn std::any::Any + Send>>,
 }
 
@@ -79,12 +88,13 @@ pub(crate) fn execute<P: ParallelIterator>(
         // the sequential reference: index order, stop where a sequential iterator stops
         let mut slots = Vec::new();
         let mut arrival = 0u64;
+        let ctx = Ctx(region << 20);
         'outer: for i in 0..n {
             sim::charge_item();
             sim::with_stats(|s| s.items += 1);
             let mut v = Vec::new();
             let mut stop = false;
-            p.pull(i, &mut |x| {
+            p.pull(ctx, i, &mut |x| {
                 if let Some(sh) = short {
                     if sh(&x) {
                         stop = true;
@@ -118,16 +128,36 @@ pub(crate) fn execute<P: ParallelIterator>(
         stops: 0,
         running: 0,
         last_started: None,
+        leavers: 0,
+        workers: sim::workers().min(n).max(1),
         panic: None,
     });
     let k = sim::workers().min(n).max(1);
 
-    let worker = || loop {
+    let next_worker = std::sync::atomic::AtomicU64::new(1);
+    let worker = || {
+        let ctx = Ctx((region << 20) | next_worker.fetch_add(1, std::sync::atomic::Ordering::Relaxed));
+        loop {
         sim::switch_point();
         // pick the next base index to start (the scheduler decides which)
         let idx = {
             let mut sh = shared.lock().unwrap();
             if sh.panic.is_some() {
+                break;
+            }
+            if sh.stopped && (rand_u64() & 1) == 0 {
+                // after a short-circuit this worker takes no further work; whatever has not
+                // started by the time every worker has left is skipped (rayon: remaining items
+                // may be skipped). The coin per pick lets some late starters still run.
+                sh.leavers += 1;
+                if sh.leavers as usize >= sh.workers {
+                    let left = if sh.lazy {
+                        (sh.len - sh.cursor) as u64
+                    } else {
+                        sh.remaining.len() as u64
+                    };
+                    sim::with_stats(|s| s.skipped = s.skipped.saturating_add(left.min(1 << 20)));
+                }
                 break;
             }
             let idx = if sh.lazy {
@@ -150,11 +180,6 @@ pub(crate) fn execute<P: ParallelIterator>(
                 let pos = m - 1 - j;
                 sh.remaining.remove(pos)
             };
-            if sh.stopped && (rand_u64() & 1) == 0 {
-                drop(sh);
-                sim::with_stats(|s| s.skipped += 1);
-                continue;
-            }
             if sh.running > 0 {
                 sim::with_stats(|s| s.overlaps += 1);
             }
@@ -179,7 +204,7 @@ pub(crate) fn execute<P: ParallelIterator>(
             sim::charge_item();
             let mut v = Vec::new();
             let mut stop = false;
-            p.pull(idx, &mut |x| {
+            p.pull(ctx, idx, &mut |x| {
                 if let Some(sh) = short {
                     if sh(&x) {
                         stop = true;
@@ -212,6 +237,7 @@ pub(crate) fn execute<P: ParallelIterator>(
                     sh.panic = Some(payload);
                 }
             }
+        }
         }
     };
 
@@ -259,7 +285,7 @@ pub trait ParallelIterator: Sized + Send + Sync {
     #[doc(hidden)]
     fn base_len(&self) -> usize;
     #[doc(hidden)]
-    fn pull(&self, i: usize, sink: &mut dyn FnMut(Self::Item));
+    fn pull(&self, ctx: Ctx, i: usize, sink: &mut dyn FnMut(Self::Item));
 
     fn map<F, R>(self, f: F) -> Map<Self, F>
     where
@@ -274,15 +300,26 @@ pub trait ParallelIterator: Sized + Send + Sync {
         F: Fn(&mut T, Self::Item) -> R + Sync + Send,
         R: Send,
     {
-        MapWith { base: self, init, f }
+        MapWith {
+            base: self,
+            init,
+            f,
+            jobs: JobSlots::new(),
+        }
     }
-    fn map_init<INIT, T, F, R>(self, init: INIT, f: F) -> MapInit<Self, INIT, F>
+    fn map_init<INIT, T, F, R>(self, init: INIT, f: F) -> MapInit<Self, INIT, F, T>
     where
         INIT: Fn() -> T + Sync + Send,
         F: Fn(&mut T, Self::Item) -> R + Sync + Send,
         R: Send,
+        T: Send,
     {
-        MapInit { base: self, init, f }
+        MapInit {
+            base: self,
+            init,
+            f,
+            jobs: JobSlots::new(),
+        }
     }
     fn filter<F>(self, f: F) -> Filter<Self, F>
     where
@@ -360,6 +397,7 @@ pub trait ParallelIterator: Sized + Send + Sync {
             base: self,
             init,
             f,
+            jobs: JobSlots::new(),
         };
         let _ = execute(&m, None);
     }
@@ -781,7 +819,7 @@ impl<T: Send> ParallelIterator for VecIter<T> {
     fn base_len(&self) -> usize {
         self.len
     }
-    fn pull(&self, i: usize, sink: &mut dyn FnMut(T)) {
+    fn pull(&self, ctx: Ctx, i: usize, sink: &mut dyn FnMut(T)) {
         let x = self.items.lock().unwrap()[i]
             .take()
             .expect("rayon-sim: base index pulled twice");
@@ -909,7 +947,7 @@ impl<'a, T: Sync> ParallelIterator for SliceIter<'a, T> {
     fn base_len(&self) -> usize {
         self.s.len()
     }
-    fn pull(&self, i: usize, sink: &mut dyn FnMut(&'a T)) {
+    fn pull(&self, ctx: Ctx, i: usize, sink: &mut dyn FnMut(&'a T)) {
         sink(&self.s[i])
     }
     fn opt_len(&self) -> Option<usize> {
@@ -963,7 +1001,7 @@ impl<'a, T: Sync> ParallelIterator for Chunks<'a, T> {
     fn base_len(&self) -> usize {
         self.s.len().div_ceil(self.size)
     }
-    fn pull(&self, i: usize, sink: &mut dyn FnMut(&'a [T])) {
+    fn pull(&self, ctx: Ctx, i: usize, sink: &mut dyn FnMut(&'a [T])) {
         let a = i * self.size;
         let b = (a + self.size).min(self.s.len());
         sink(&self.s[a..b])
@@ -1033,7 +1071,7 @@ macro_rules! range_impl {
         impl ParallelIterator for RangeIter<$t> {
             type Item = $t;
             fn base_len(&self) -> usize { self.len }
-            fn pull(&self, i: usize, sink: &mut dyn FnMut($t)) {
+            fn pull(&self, ctx: Ctx, i: usize, sink: &mut dyn FnMut($t)) {
                 sink((self.start as i128 + i as i128) as $t)
             }
             fn opt_len(&self) -> Option<usize> { Some(self.len) }
@@ -1079,7 +1117,7 @@ where
     fn base_len(&self) -> usize {
         self.items.lock().unwrap().len()
     }
-    fn pull(&self, i: usize, sink: &mut dyn FnMut(I::Item)) {
+    fn pull(&self, ctx: Ctx, i: usize, sink: &mut dyn FnMut(I::Item)) {
         let x = self.items.lock().unwrap()[i].take().expect("pulled twice");
         sink(x)
     }
@@ -1094,7 +1132,7 @@ impl<T: Send> ParallelIterator for OnceIter<T> {
     fn base_len(&self) -> usize {
         1
     }
-    fn pull(&self, _i: usize, sink: &mut dyn FnMut(T)) {
+    fn pull(&self, ctx: Ctx, _i: usize, sink: &mut dyn FnMut(T)) {
         sink(self.v.lock().unwrap().take().expect("pulled twice"))
     }
 }
@@ -1129,8 +1167,8 @@ where
     fn base_len(&self) -> usize {
         self.base.base_len()
     }
-    fn pull(&self, i: usize, sink: &mut dyn FnMut(R)) {
-        self.base.pull(i, &mut |x| sink((self.f)(x)))
+    fn pull(&self, ctx: Ctx, i: usize, sink: &mut dyn FnMut(R)) {
+        self.base.pull(ctx, i, &mut |x| sink((self.f)(x)))
     }
 }
 impl<I, F, R> IndexedParallelIterator for Map<I, F>
@@ -1145,6 +1183,7 @@ pub struct MapWith<I, T, F> {
     base: I,
     init: T,
     f: F,
+    jobs: JobSlots<T>,
 }
 impl<I, T, F, R> ParallelIterator for MapWith<I, T, F>
 where
@@ -1157,9 +1196,11 @@ where
     fn base_len(&self) -> usize {
         self.base.base_len()
     }
-    fn pull(&self, i: usize, sink: &mut dyn FnMut(R)) {
-        let mut t = self.init.clone();
-        self.base.pull(i, &mut |x| sink((self.f)(&mut t, x)))
+    fn pull(&self, ctx: Ctx, i: usize, sink: &mut dyn FnMut(R)) {
+        // one clone of `init` per job, reused for every item the job processes
+        let mut t = self.jobs.take(ctx).unwrap_or_else(|| self.init.clone());
+        self.base.pull(ctx, i, &mut |x| sink((self.f)(&mut t, x)));
+        self.jobs.put(ctx, t);
     }
 }
 impl<I, T, F, R> IndexedParallelIterator for MapWith<I, T, F>
@@ -1171,33 +1212,51 @@ where
 {
 }
 
-pub struct MapInit<I, INIT, F> {
+/// Per-job storage for `map_with` / `map_init` state.
+pub struct JobSlots<T>(Mutex<HashMap<u64, T>>);
+impl<T> JobSlots<T> {
+    fn new() -> Self {
+        JobSlots(Mutex::new(HashMap::new()))
+    }
+    fn take(&self, ctx: Ctx) -> Option<T> {
+        self.0.lock().unwrap().remove(&ctx.0)
+    }
+    fn put(&self, ctx: Ctx, t: T) {
+        self.0.lock().unwrap().insert(ctx.0, t);
+    }
+}
+
+pub struct MapInit<I, INIT, F, T> {
     base: I,
     init: INIT,
     f: F,
+    jobs: JobSlots<T>,
 }
-impl<I, INIT, T, F, R> ParallelIterator for MapInit<I, INIT, F>
+impl<I, INIT, T, F, R> ParallelIterator for MapInit<I, INIT, F, T>
 where
     I: ParallelIterator,
     INIT: Fn() -> T + Sync + Send,
     F: Fn(&mut T, I::Item) -> R + Sync + Send,
     R: Send,
+    T: Send,
 {
     type Item = R;
     fn base_len(&self) -> usize {
         self.base.base_len()
     }
-    fn pull(&self, i: usize, sink: &mut dyn FnMut(R)) {
-        let mut t = (self.init)();
-        self.base.pull(i, &mut |x| sink((self.f)(&mut t, x)))
+    fn pull(&self, ctx: Ctx, i: usize, sink: &mut dyn FnMut(R)) {
+        let mut t = self.jobs.take(ctx).unwrap_or_else(|| (self.init)());
+        self.base.pull(ctx, i, &mut |x| sink((self.f)(&mut t, x)));
+        self.jobs.put(ctx, t);
     }
 }
-impl<I, INIT, T, F, R> IndexedParallelIterator for MapInit<I, INIT, F>
+impl<I, INIT, T, F, R> IndexedParallelIterator for MapInit<I, INIT, F, T>
 where
     I: IndexedParallelIterator,
     INIT: Fn() -> T + Sync + Send,
     F: Fn(&mut T, I::Item) -> R + Sync + Send,
     R: Send,
+    T: Send,
 {
 }
 
@@ -1214,8 +1273,8 @@ where
     fn base_len(&self) -> usize {
         self.base.base_len()
     }
-    fn pull(&self, i: usize, sink: &mut dyn FnMut(I::Item)) {
-        self.base.pull(i, &mut |x| {
+    fn pull(&self, ctx: Ctx, i: usize, sink: &mut dyn FnMut(I::Item)) {
+        self.base.pull(ctx, i, &mut |x| {
             (self.f)(&x);
             sink(x)
         })
@@ -1239,8 +1298,8 @@ where
     fn base_len(&self) -> usize {
         self.base.base_len()
     }
-    fn pull(&self, i: usize, sink: &mut dyn FnMut(I::Item)) {
-        self.base.pull(i, &mut |x| {
+    fn pull(&self, ctx: Ctx, i: usize, sink: &mut dyn FnMut(I::Item)) {
+        self.base.pull(ctx, i, &mut |x| {
             if (self.f)(&x) {
                 sink(x)
             }
@@ -1262,8 +1321,8 @@ where
     fn base_len(&self) -> usize {
         self.base.base_len()
     }
-    fn pull(&self, i: usize, sink: &mut dyn FnMut(R)) {
-        self.base.pull(i, &mut |x| {
+    fn pull(&self, ctx: Ctx, i: usize, sink: &mut dyn FnMut(R)) {
+        self.base.pull(ctx, i, &mut |x| {
             if let Some(y) = (self.f)(x) {
                 sink(y)
             }
@@ -1286,8 +1345,8 @@ where
     fn base_len(&self) -> usize {
         self.base.base_len()
     }
-    fn pull(&self, i: usize, sink: &mut dyn FnMut(U::Item)) {
-        self.base.pull(i, &mut |x| {
+    fn pull(&self, ctx: Ctx, i: usize, sink: &mut dyn FnMut(U::Item)) {
+        self.base.pull(ctx, i, &mut |x| {
             for y in (self.f)(x) {
                 sink(y)
             }
@@ -1309,8 +1368,8 @@ where
     fn base_len(&self) -> usize {
         self.base.base_len()
     }
-    fn pull(&self, i: usize, sink: &mut dyn FnMut(PI::Item)) {
-        self.base.pull(i, &mut |x| {
+    fn pull(&self, ctx: Ctx, i: usize, sink: &mut dyn FnMut(PI::Item)) {
+        self.base.pull(ctx, i, &mut |x| {
             // the inner parallel iterator is a nested region
             let inner = (self.f)(x).into_par_iter();
             for y in execute(&inner, None).into_ordered() {
@@ -1332,8 +1391,8 @@ where
     fn base_len(&self) -> usize {
         self.base.base_len()
     }
-    fn pull(&self, i: usize, sink: &mut dyn FnMut(T)) {
-        self.base.pull(i, &mut |x| sink(x.clone()))
+    fn pull(&self, ctx: Ctx, i: usize, sink: &mut dyn FnMut(T)) {
+        self.base.pull(ctx, i, &mut |x| sink(x.clone()))
     }
 }
 impl<'a, T, I> IndexedParallelIterator for Cloned<I>
@@ -1355,8 +1414,8 @@ where
     fn base_len(&self) -> usize {
         self.base.base_len()
     }
-    fn pull(&self, i: usize, sink: &mut dyn FnMut(T)) {
-        self.base.pull(i, &mut |x| sink(*x))
+    fn pull(&self, ctx: Ctx, i: usize, sink: &mut dyn FnMut(T)) {
+        self.base.pull(ctx, i, &mut |x| sink(*x))
     }
 }
 impl<'a, T, I> IndexedParallelIterator for Copied<I>
@@ -1379,12 +1438,12 @@ where
     fn base_len(&self) -> usize {
         self.a.base_len().saturating_add(self.b.base_len())
     }
-    fn pull(&self, i: usize, sink: &mut dyn FnMut(A::Item)) {
+    fn pull(&self, ctx: Ctx, i: usize, sink: &mut dyn FnMut(A::Item)) {
         let n = self.a.base_len();
         if i < n {
-            self.a.pull(i, sink)
+            self.a.pull(ctx, i, sink)
         } else {
-            self.b.pull(i - n, sink)
+            self.b.pull(ctx, i - n, sink)
         }
     }
 }
@@ -1408,11 +1467,11 @@ where
     fn base_len(&self) -> usize {
         self.a.base_len().min(self.b.base_len())
     }
-    fn pull(&self, i: usize, sink: &mut dyn FnMut((A::Item, B::Item))) {
+    fn pull(&self, ctx: Ctx, i: usize, sink: &mut dyn FnMut((A::Item, B::Item))) {
         let mut x = None;
-        self.a.pull(i, &mut |v| x = Some(v));
+        self.a.pull(ctx, i, &mut |v| x = Some(v));
         let mut y = None;
-        self.b.pull(i, &mut |v| y = Some(v));
+        self.b.pull(ctx, i, &mut |v| y = Some(v));
         sink((
             x.expect("indexed iterator yields one item"),
             y.expect("indexed iterator yields one item"),
@@ -1429,8 +1488,8 @@ impl<I: IndexedParallelIterator> ParallelIterator for Enumerate<I> {
     fn base_len(&self) -> usize {
         self.base.base_len()
     }
-    fn pull(&self, i: usize, sink: &mut dyn FnMut((usize, I::Item))) {
-        self.base.pull(i, &mut |x| sink((i, x)))
+    fn pull(&self, ctx: Ctx, i: usize, sink: &mut dyn FnMut((usize, I::Item))) {
+        self.base.pull(ctx, i, &mut |x| sink((i, x)))
     }
 }
 impl<I: IndexedParallelIterator> IndexedParallelIterator for Enumerate<I> {}
@@ -1443,8 +1502,8 @@ impl<I: IndexedParallelIterator> ParallelIterator for Rev<I> {
     fn base_len(&self) -> usize {
         self.base.base_len()
     }
-    fn pull(&self, i: usize, sink: &mut dyn FnMut(I::Item)) {
-        self.base.pull(self.base.base_len() - 1 - i, sink)
+    fn pull(&self, ctx: Ctx, i: usize, sink: &mut dyn FnMut(I::Item)) {
+        self.base.pull(ctx, self.base.base_len() - 1 - i, sink)
     }
 }
 impl<I: IndexedParallelIterator> IndexedParallelIterator for Rev<I> {}
@@ -1458,8 +1517,8 @@ impl<I: IndexedParallelIterator> ParallelIterator for Skip<I> {
     fn base_len(&self) -> usize {
         self.base.base_len().saturating_sub(self.n)
     }
-    fn pull(&self, i: usize, sink: &mut dyn FnMut(I::Item)) {
-        self.base.pull(i + self.n, sink)
+    fn pull(&self, ctx: Ctx, i: usize, sink: &mut dyn FnMut(I::Item)) {
+        self.base.pull(ctx, i + self.n, sink)
     }
 }
 impl<I: IndexedParallelIterator> IndexedParallelIterator for Skip<I> {}
@@ -1473,8 +1532,8 @@ impl<I: IndexedParallelIterator> ParallelIterator for Take<I> {
     fn base_len(&self) -> usize {
         self.base.base_len().min(self.n)
     }
-    fn pull(&self, i: usize, sink: &mut dyn FnMut(I::Item)) {
-        self.base.pull(i, sink)
+    fn pull(&self, ctx: Ctx, i: usize, sink: &mut dyn FnMut(I::Item)) {
+        self.base.pull(ctx, i, sink)
     }
 }
 impl<I: IndexedParallelIterator> IndexedParallelIterator for Take<I> {}
@@ -1491,7 +1550,7 @@ where
     fn base_len(&self) -> usize {
         1
     }
-    fn pull(&self, _i: usize, sink: &mut dyn FnMut(T)) {
+    fn pull(&self, ctx: Ctx, _i: usize, sink: &mut dyn FnMut(T)) {
         // run the inner region with short-circuit on None; yield the Somes in index order
         let out = execute(&self.base, Some(&|x: &Option<T>| x.is_none()));
         for x in out.into_ordered().flatten() {
